@@ -146,11 +146,22 @@ def isqrt_table(ctx, crate, fn="ring::polar_cap_ring_index", clause="exact-integ
     rnd = random.Random(11)
     ns = [(1 << k) + j for k in range(20, 30) for j in range(-3, 4) if (1 << k) + j < (1 << 29)] + [rnd.randrange(1 << 26, 1 << 29) for _ in range(3000)]
     hs = list(range(3000)) + [h for n in ns for h in (T(n) - 1, T(n), T(n) + 1, T(n + 1) - 1)]
-    bad = []; off = 0
+    bad = []; off = 0; cases = None; ce = None; leaves = None
+    from rules.common import feval_cases, feval_leaves
     for h in hs:
         want = exact(h)
         if est(h) != want: off += 1
         got = feval(r.ret, {param(pn[0]): h}, e)
+        if got is None:
+            if cases is None:
+                from rules.common import ret_cases
+                ce, cases = ret_cases(crate, fn)
+            got = feval_cases(cases, {param(pn[0]): h}, ce)
+        if got is None:
+            if leaves is None:
+                from rules.common import explore_leaves
+                leaves = explore_leaves(crate, fn, max_tests=6) or []
+            got = feval_leaves(leaves, {param(pn[0]): h})
         if got is None:
             ctx.undecided(clause, fn + ":table", "cannot read %s at %d" % (show(r.ret)[:80], h), at=b.span); return
         if got != want and len(bad) < 4: bad.append((h, got, want))
